@@ -23,9 +23,10 @@ func specC02() *propertySpec {
 			{"C02-R1", "signal-sets-state: Error/Errorf/Fail → fail(false), Fatal/Fatalf/FailNow → fail(true) on every path; fail stores failed and panics with stopTest when now; skip never stores failed and panics with invalidData", ruleC02R1},
 			{"C02-R2", "state-reaches-verdict: in every bracket reachable from Check, a deferred action registered before the cleanup defer reads X.failed and panics/transfers it, so it runs after cleanup on every exit", ruleC02R2},
 			{"C02-R3", "callbacks-are-bracketed: every user-callback site that receives a *T lies in a bracket or is followed on every normal path by failOnError on the same T", ruleC02R3},
-			{"C02-R4", "recover-census: every recover() is a converter (→ panicToError → error result), an invalidData filter that re-panics everything else, or a typed *testError assertion", ruleC02R4},
+			{"C02-R4", "recover-census: every recover() is a converter (→ panicToError → error result), an invalidData filter that re-panics everything else, or a typed *testError assertion; 'no panic' is not inferred from recover() == nil alone", func(r *Run) { ruleC02R4(r); ruleC02R4nil(r) }},
 			{"C02-R5", "classification: findBug counts nil as valid, invalidData as invalid and returns every other error (shared with C09-R2); checkFuzz maps nil/invalid/other to pass/Skip/Fatal (C13-R2)", func(r *Run) { ruleC09R2(r); ruleC13R2(r) }},
 			{"C02-R6", "verdict-fails-TB: doCheck's failure returns carry findBug's error; checkTB fails the TB on every non-pass path and calls FailNow (shared with C09-R3/R4)", func(r *Run) { ruleC02R6(r); ruleC09R3(r); ruleC09R4(r) }},
+			{"C02-R8", "panic-survives-cleanup: a falsifying panic of the property cannot be replaced by a skip raised from a cleanup callback before the verdict is formed", ruleC02R8},
 			{"C02-R7", "cross-goroutine: T.failed is only accessed under T.mu (shared with C14-R1)", func(r *Run) { ruleC14R1(r, map[string]bool{"failed": true}) }},
 		},
 	}
@@ -254,6 +255,9 @@ func ruleC02R1(r *Run) {
 				}
 			}
 			r.Check("(*T).fail#store-failed", st.Pos(), exit == nil && notEmpty, "stores the message to t.failed on every path", "t.failed is not set on every path of (*T).fail (bypass at "+posOf(p, exit)+") or is set to the empty string")
+			// the flag is tested as failed != "": the stored value must be provably non-empty for every message
+			r.Check("(*T).fail#flag-non-empty", st.Pos(), p.nonEmptyString(st.Val, st, 0), "the value stored to the flag is non-empty for every message",
+				"(*T).fail stores "+p.expr(st.Val)+" into the flag that failOnError/Failed/failFrom test with != \"\": a non-fatal failure with an empty message (t.Error(), t.Errorf(\"\")) leaves the flag empty and is lost")
 		}
 		// panic on now
 		nowP := paramNamed(fn, "now")
@@ -524,6 +528,36 @@ func ruleC02R4(r *Run) {
 }
 
 // classifyRecoverFn classifies the (single) recover() site of fn.
+// ruleC02R4nil: "no panic" must not be inferred from recover() == nil alone.
+func ruleC02R4nil(r *Run) {
+	p := r.P
+	// "no panic" is inferred from recover() == nil
+	if pe := r.MustFn("panicToError"); pe != nil {
+		nilMeansNone := false
+		for _, ret := range returnsOf(pe) {
+			if isNilConst(p.resolve(p.res(ret, 0))) && holds(p.facts(ret), "$p", "==", "nil") {
+				nilMeansNone = true
+			}
+		}
+		flagged := false
+		if co := p.Fn("checkOnce$1"); co != nil {
+			for _, fv := range co.FreeVars {
+				if pt, ok := fv.Type().(*types.Pointer); ok {
+					if bt, ok := pt.Elem().Underlying().(*types.Basic); ok && bt.Kind() == types.Bool {
+						flagged = true // a completion flag is consulted next to recover()
+					}
+				}
+			}
+		}
+		goVer := ""
+		if p.Pkg != nil && p.Pkg.Module != nil {
+			goVer = p.Pkg.Module.GoVersion
+		}
+		r.Check("panicToError#nil-means-no-panic", pe.Pos(), !nilMeansNone || flagged, "the verdict does not rely on recover() == nil alone",
+			"the verdict converter treats recover() == nil as 'the property did not panic' (module go directive "+goVer+"): in programs whose main module declares go < 1.21 (GODEBUG panicnil=1, the case for this module's own tests) panic(nil) inside the property returns nil from recover() and the falsification is lost")
+	}
+}
+
 func (r *Run) classifyRecoverFn(fn *ssa.Function) (string, string) {
 	cs := r.P.callsTo(fn, "builtin:recover")
 	if len(cs) != 1 {
@@ -690,4 +724,102 @@ func ruleC02R6(r *Run) {
 			r.Fail("doCheck#failfile-return", cs.Instr.Pos(), "no return of doCheck hands on the errors of checkFailFile")
 		}
 	}
+}
+
+// nonEmptyString: the string value v is provably non-empty at instruction at.
+func (p *Program) nonEmptyString(v ssa.Value, at ssa.Instruction, d int) bool {
+	if d > 6 {
+		return false
+	}
+	v = p.resolve(v)
+	switch x := v.(type) {
+	case *ssa.Const:
+		s, ok := constString(x)
+		return ok && s != ""
+	case *ssa.Convert:
+		return p.nonEmptyString(x.X, at, d+1)
+	case *ssa.BinOp:
+		if x.Op == token.ADD {
+			return p.nonEmptyString(x.X, at, d+1) || p.nonEmptyString(x.Y, at, d+1)
+		}
+	case *ssa.Phi:
+		for i, e := range x.Edges {
+			pred := x.Block().Preds[i]
+			last := pred.Instrs[len(pred.Instrs)-1]
+			if p.nonEmptyString(e, last, d+1) {
+				continue
+			}
+			// the edge's own branch decision
+			ok := false
+			if iff, isIf := last.(*ssa.If); isIf {
+				rl := p.relOf(guard{Cond: iff.Cond, Pol: pred.Succs[0] == x.Block()})
+				if rl.X == p.expr(e) && rl.Op == "!=" && rl.Y == `""` {
+					ok = true
+				}
+			}
+			if !ok {
+				return false
+			}
+		}
+		return len(x.Edges) > 0
+	}
+	return holds(p.facts(at), p.expr(v), "!=", `""`)
+}
+
+func ruleC02R8(r *Run) {
+	p := r.P
+	co := r.MustFn("checkOnce")
+	cu := r.MustFn("(*T).cleanup")
+	if co == nil || cu == nil {
+		return
+	}
+	var b *bracket
+	for _, x := range r.brackets() {
+		if x.fn == co {
+			b = x
+		}
+	}
+	if b == nil {
+		r.Fail("checkOnce#bracket", co.Pos(), "checkOnce has no deferred cleanup")
+		return
+	}
+	// (a) something registered after the cleanup defer (hence running before the user cleanups) records/recovers the in-flight panic
+	recorded := false
+	after := false
+	for _, d := range b.defers {
+		if d == b.cleanup {
+			after = true
+			continue
+		}
+		if !after {
+			continue
+		}
+		if f := deferredFn(p, d); f != nil && len(p.callsTo(f, "builtin:recover")) > 0 {
+			recorded = true
+		}
+	}
+	// (b) or cleanup itself shields callbacks: a recover around the callback call inside (*T).cleanup
+	shielded := false
+	for f := range p.closureOf([]*ssa.Function{cu}) {
+		if f != cu && f.Parent() == cu && len(p.callsTo(f, "builtin:recover")) > 0 {
+			shielded = true
+		}
+	}
+	r.Check("checkOnce#panic-masked-by-cleanup-skip", b.cleanup.Pos(), recorded || shielded,
+		"a falsifying panic is recorded before user cleanups run, or cleanup shields the verdict from skips raised by callbacks",
+		"user cleanup callbacks run while a falsifying panic of the property may be in flight and nothing has recorded it: a callback that skips (t.Skip, an exhausted draw) replaces the panic by invalidData, the test case is counted as invalid and the falsification is lost (failures signalled through T survive thanks to the deferred failOnError; arbitrary panics do not)")
+}
+
+// deferredFn returns the package function a defer statement runs (closure or static callee).
+func deferredFn(p *Program, d *ssa.Defer) *ssa.Function {
+	if mc, ok := d.Common().Value.(*ssa.MakeClosure); ok {
+		return mc.Fn.(*ssa.Function)
+	}
+	if sc := d.Common().StaticCallee(); sc != nil && p.inRapid(sc) {
+		if o := sc.Origin(); o != nil {
+			return o
+		}
+		return sc
+	}
+	return nil
 }
